@@ -100,6 +100,16 @@ def build_for(ctx, mod):
             ctx.discharged = core.count_statements(done)[0]
             if ctx.discharged >= ctx.obligations:
                 ctx.discharged = max(0, ctx.obligations - 1)
+        # thorough tier: re-check the compiled cone with the independent checker and record its context summary
+        if proof_ok and ctx.tier == "thorough" and os.environ.get("VERIF_COQCHK", "1") != "0":
+            rc3, out3, dt3 = core.sh(
+                ["coqchk", "-silent", "-o", "-Q", ".", "Verif", f"Verif.Props.{ctx.pid}"], 2400, cwd=str(core.COQ)
+            )
+            summary = out3[out3.find("CONTEXT SUMMARY"):] if "CONTEXT SUMMARY" in out3 else out3[-1500:]
+            ctx.extra["coqchk"] = {"rc": rc3, "seconds": round(dt3, 1), "summary": " ".join(summary.split())[:1500]}
+            ctx.trusted = list(ctx.trusted) + [f"coqchk -o on Verif.Props.{ctx.pid} (independent re-check of the compiled cone): " + " ".join(summary.split())[:600]]
+            if rc3 != 0:
+                ctx.obligation_broken("coqchk", out3[-800:])
         model_ok = True
         if exname:
             if not (core.COQ / f"Extract/{exname}.vo").exists():
